@@ -45,7 +45,7 @@ pub trait MapValidVec<T: IsNone>: Vec1View<T> {
                     .chain(std::iter::repeat_n(value, n_abs))
                     .to_trust(len),
             ),
-            _ => Box::new(std::iter::repeat_n(T::zero(), len).to_trust(len)),
+            _ => Box::new(self.titer().map(|v| v.clone() - v)),
         }
     }
 
@@ -97,7 +97,14 @@ pub trait MapValidVec<T: IsNone>: Vec1View<T> {
                     .chain(std::iter::repeat_n(f64::NAN, n_abs))
                     .to_trust(len),
             ),
-            _ => Box::new(std::iter::repeat_n(0., len).to_trust(len)),
+            _ => Box::new(self.titer().map(|v| {
+                // x / x - 1: null for a null element and for a zero base
+                if v.not_none() && (v.cast() != 0.) {
+                    0.
+                } else {
+                    f64::NAN
+                }
+            })),
         }
     }
 
